@@ -166,13 +166,17 @@ func c32Oracle(in string) eng.Res {
 						}
 					}
 					if !found {
-						kind := "ascii-only-label"
+						kind := "ascii-only-label:" + s.Type
 						for _, r := range s.Label {
 							if r >= 0x80 {
-								kind = "label-with-multibyte-rune"
+								kind = "label-with-multibyte-rune:" + s.Type
 							}
 						}
-						return eng.Bad("label-not-in-output:"+kind+":"+s.Type,
+						if c32Gapped(lines, s.Label) {
+							// every rune sits at its UTF-8 byte offset instead of its rune offset
+							kind = "runes-drawn-at-byte-offsets"
+						}
+						return eng.Bad("label-not-in-output:"+kind,
 							fmt.Sprintf("charset %s: label %q of shape %s (%s) is on no output line\nd2:\n%s\noutput:\n%s", csName, s.Label, s.ID, s.Type, in, text))
 					}
 				}
@@ -181,6 +185,29 @@ func c32Oracle(in string) eng.Res {
 		}
 	}
 	return eng.OK(strings.Join(outcome, " "), true)
+}
+
+// c32Gapped: some line shows the label with each rune at column start+byteOffset(rune) (other cells arbitrary).
+func c32Gapped(lines []string, label string) bool {
+	if len(label) == len([]rune(label)) {
+		return false
+	}
+	for _, l := range lines {
+		lr := []rune(l)
+		for start := 0; start+len(label) <= len(lr)+3; start++ {
+			ok := true
+			for i, r := range label {
+				if start+i >= len(lr) || lr[start+i] != r {
+					ok = false
+					break
+				}
+			}
+			if ok {
+				return true
+			}
+		}
+	}
+	return false
 }
 
 func init() {
